@@ -132,7 +132,8 @@ theorem reference_ok {s : PState} {c : CState}
     (hc : chkRev strict cx.h s.evs = some c) (hd : c.done = false) :
     Sat strict cx.h (doReadReference cx) s (fun _ s' => chkRev strict cx.h s'.evs = some c.push1) := by
   unfold doReadReference
-  refine sat_rd_bind (reads_readUIntUB cx _) hc (fun i s1 hc1 hi => ?_)
+  refine sat_rd_bind (reads_readUIntUB cx _) hc (fun i s1 hc1 hi0 => ?_)
+  have hi : i < cx.h.num_vars_and_exprs := Nat.lt_of_lt_of_le hi0 (Site.ubRef_le cx.h)
   refine sat_rd_bind (reads_eol cx) hc1 (fun _ s2 hc2 _ => ?_)
   split
   · exact sat_em_last hc2 (by simp [step, stepCore, hd, *])
@@ -252,7 +253,8 @@ theorem numericC_ok {rec : Mode → P Unit} (hrec : RecOK strict cx rec) (code :
   unfold readNumericC
   split
   · -- function call
-    refine sat_rd_bind (reads_readUIntUB cx _) hc (fun f s1 hc1 hf => ?_)
+    refine sat_rd_bind (reads_readUIntUB cx _) hc (fun f s1 hc1 hf0 => ?_)
+    have hf : f < cx.h.num_funcs := Nat.lt_of_lt_of_le hf0 (Site.ubCall_le cx.h)
     refine sat_rd_bind (reads_rdUInt cx) hc1 (fun n s2 hc2 _ => ?_)
     refine sat_rd_bind (reads_eol cx) hc2 (fun _ s3 hc3 _ => ?_)
     refine sat_em_bind (c' := { c with stack := .args n 0 :: c.stack }) hc3 (by simp [step, stepCore, hd, hf]) (fun s4 hc4 => ?_)
